@@ -42,7 +42,7 @@ func checkConv(c ConvCase, cv *cov) (v *evid.Violation) {
 				v = evid.Failf("BinaryToString(empty) = %q", s)
 				return
 			}
-			b := unsafex.StringToBinary("")
+			b := opaqueBytes(unsafex.StringToBinary(""))
 			if len(b) != 0 || cap(b) != 0 {
 				v = evid.Failf("StringToBinary(\"\") has len %d cap %d", len(b), cap(b))
 				return
@@ -63,7 +63,7 @@ func checkConv(c ConvCase, cv *cov) (v *evid.Violation) {
 		// string side: a substring of a larger string; the harness never writes through these pointers
 		ps := string(parent)
 		ss := ps[c.I:c.J]
-		b := unsafex.StringToBinary(ss)
+		b := opaqueBytes(unsafex.StringToBinary(ss))
 		if len(b) != len(ss) || !bytes.Equal(b, []byte(ss)) {
 			v = evid.Failf("StringToBinary(s[%d:%d]): len %d want %d, content equal=%v", c.I, c.J, len(b), len(ss), bytes.Equal(b, []byte(ss)))
 			return
@@ -181,7 +181,7 @@ func TestC20_BigCaps(t *testing.T) {
 								return
 							}
 							ss := ps[off : off+l]
-							bb := unsafex.StringToBinary(ss)
+							bb := opaqueBytes(unsafex.StringToBinary(ss))
 							if len(bb) != l || cap(bb) != l || !bytes.Equal(bb, []byte(ss)) || (l > 0 && &bb[0] != unsafe.StringData(ss)) {
 								c := ConvCase{Parent: capN, I: off, J: off + l, K: capN}
 								failEnum(t, rec, "c20_conv", c, evid.Failf("StringToBinary (call %d in a row) on a %d-byte substring at offset %d of a %d-byte string: len %d cap %d", rep+1, l, off, capN, len(bb), cap(bb)))
@@ -257,7 +257,7 @@ func c20FirstUseChild() {
 			for atomic.LoadInt32(&ready) < g {
 			}
 			s := unsafex.BinaryToString(buf)
-			bb := unsafex.StringToBinary(str)
+			bb := opaqueBytes(unsafex.StringToBinary(str))
 			if len(s) != 12 || s != "hello, first" || unsafe.StringData(s) != &buf[0] {
 				fails <- "BinaryToString did not share memory / wrong content"
 			}
@@ -301,6 +301,13 @@ func hugeMapping() []byte {
 	return hugeMem
 }
 
+// opaqueBytes hands a conversion result through a call the compiler cannot see through: it then has to assume
+// that the bytes may be written, and cannot quietly replace a copying conversion by a sharing one (or the other
+// way round) at this call site only.
+//
+//go:noinline
+func opaqueBytes(b []byte) []byte { return b }
+
 func checkHugeConv(c HugeConvCase, cv *cov) (v *evid.Violation) {
 	if c.Off < 0 || c.Len < 1 || c.Off+c.Len > hugeMapSize {
 		return nil
@@ -331,7 +338,7 @@ func checkHugeConv(c HugeConvCase, cv *cov) (v *evid.Violation) {
 			v = evid.Failf("BinaryToString on a %d-byte slice: first/last byte differ from the argument", c.Len)
 			return
 		}
-		b := unsafex.StringToBinary(s)
+		b := opaqueBytes(unsafex.StringToBinary(s))
 		if int64(len(b)) != c.Len || int64(cap(b)) != c.Len {
 			v = evid.Failf("StringToBinary on a %d-byte string returns len %d cap %d (cap must equal len)", c.Len, len(b), cap(b))
 			return
@@ -344,6 +351,15 @@ func checkHugeConv(c HugeConvCase, cv *cov) (v *evid.Violation) {
 			v = evid.Failf("StringToBinary on a %d-byte string: first/last byte differ", c.Len)
 			return
 		}
+		// sharing means that a write through the result is seen through the argument (the memory behind this
+		// string is a writable mapping). A compiler may turn a conversion that copies into one that does not when
+		// the result is only read, so reading alone cannot tell the two apart.
+		b[len(b)-1] ^= 0xff
+		if sub[len(sub)-1] != last^0xff || s[len(s)-1] != last^0xff {
+			v = evid.Failf("StringToBinary on a %d-byte string: a write through the result is not seen through the string (the result is a copy)", c.Len)
+			return
+		}
+		b[len(b)-1] ^= 0xff
 	}
 	if p, st := evid.Safe(body); p != nil {
 		return &evid.Violation{Msg: fmt.Sprintf("panic: %v", p), Stack: st}
@@ -447,7 +463,7 @@ func convLocalBack(seed byte, n int) []byte {
 		a[i] = seed + byte(i)*3
 	}
 	s := string(a[:n])
-	return unsafex.StringToBinary(s)
+	return opaqueBytes(unsafex.StringToBinary(s))
 }
 
 //go:noinline
